@@ -1089,6 +1089,24 @@ var detPrograms = []string{
 	"(let ((x 1)) (let ((f (lambda (a) (+ x a)))) (let ((x 20)) (list (funcall f 0) (mapcar f (list x)) (apply f (list x))))))",
 	"(do ((i 0 (1+ i)) (done nil (> i 1))) (done i) (vtr 1 i))",
 	"(list (multiple-value-list (progn (values 1 2))) (if (values nil 1) 1 2) (and (values nil 1) 3) (or (values nil 1) 3) (let ((z 0)) (multiple-value-list (setq z (values 4 5)))) (list 1 (values)) (mapcar (lambda (a) (values a 2)) (list 1)))",
+	// the value forms of a binding form are evaluated in the enclosing scope:
+	// the new variable has the name of an enclosing variable its own
+	// init / list / count / step / end / values form reads
+	"(let ((x 1)) (let ((x (vtr 1 (+ x 10))) (y (vtr 2 x))) (list x y)))",
+	"(let ((x 1)) (let* ((x (vtr 1 (+ x 10))) (y (vtr 2 x))) (list x y)))",
+	"(let ((x 10)) (list (do ((x (vtr 1 (+ x 1)) (1+ x)) (y (vtr 2 x) (+ y x))) ((> x 12) (list x y)) (vtr 3 x)) x))",
+	"(let ((x 10)) (list (do* ((x (vtr 1 (+ x 1)) (1+ x)) (y (vtr 2 x) (+ y x))) ((> x 12) (list x y)) (vtr 3 x)) x))",
+	"(let ((n 2)) (do ((n (vtr 1 n) (1- n)) (acc nil (cons n acc))) ((< n 1) (vtr 2 (list n acc)))))",
+	"(let ((xs (list 1 2 3))) (list (dolist (xs (vtr 1 xs) (vtr 3 xs)) (vtr 2 xs)) xs))",
+	"(let ((item (list 0 4 5)) (acc nil)) (dolist (item (cdr item) (reverse acc)) (setq acc (cons (vtr 1 item) acc))))",
+	"(let ((xs (list 1 2))) (list (dolist (xs xs xs) (vtr 1 xs)) xs))",
+	"(let ((n 3)) (list (dotimes (n (vtr 1 n) (vtr 3 n)) (vtr 2 n)) n))",
+	"(let ((x 2)) (list ((lambda (x y) (list x y)) (vtr 1 (+ x 1)) (vtr 2 x)) (funcall (lambda (x) (vtr 3 x)) (* x 5)) x))",
+	"(let ((a 1) (b 2)) (list (multiple-value-bind (a b) (values (vtr 1 b) (vtr 2 a)) (list a b)) a b))",
+	"(let ((b 5)) (funcall (lambda (a &optional (b (vtr 1 b))) (list a b)) 1))",
+	"(let ((xs (list 1 2)) (f (lambda (xs) (let ((out nil)) (dolist (xs (vtr 1 xs) (reverse out)) (setq out (cons (* xs 2) out))))))) (let ((res nil)) (dolist (k (list xs (cdr xs)) (reverse res)) (setq res (cons (funcall f k) res)))))",
+	"(let ((g (lambda (i) (dotimes (i (vtr 1 i) (vtr 2 i)) (vtr 3 i))))) (let ((r nil)) (dotimes (i 3 (reverse r)) (setq r (cons (funcall g i) r)))))",
+	"(let ((h (lambda (x) (do ((x (vtr 1 x) (1- x)) (s 0 (+ s x))) ((< x 1) (vtr 2 s)))))) (let ((r nil)) (dolist (x (list 1 3) (reverse r)) (setq r (cons (funcall h x) r)))))",
 	"(list 'nil 't '5 '3/4 '2.5f0 '\"s\" '#\\a '#(1 2) '(a . b))",
 }
 
